@@ -6,7 +6,8 @@
     them in. *)
 From Coq Require Import ZArith List String Permutation.
 Import ListNotations.
-From FGV Require Import Base.Util Base.Bond Base.NX Base.NXMulti Model.Proxy Model.ProxyGen
+From FGV Require Import Base.Util Base.Bond Base.NX Base.NXMulti Model.Proxy Model.ProxyGen Model.ProxyDict Model.ProxyTree
+  Proofs.ProxyDictTreeProofs Proofs.ProxyDictTop
   Spec.ProxySpec Spec.ProxyGenSpec Spec.ProxyGenCheck Spec.ProxyRefCheck Spec.ProxyParserCheck Spec.ProxyBondSpec Gen.ProxyDA
   Proofs.ProxyGenProofs Proofs.ProxyGenMain Proofs.ProxyGenCheckProofs Proofs.ProxyDAProofs
   Proofs.ProxyBondsTop Proofs.ProxyRefCheckProofs Proofs.ProxyDASigs Proofs.NXMultiCopyFacts Proofs.ProxyGenTop.
@@ -161,6 +162,51 @@ Proof. vm_compute. reflexivity. Qed.
 Theorem C14_DA_patterns_parsed : da_patterns_parsedb = true.
 Proof. exact da_patterns_parsed. Qed.
 
+(* Construction paths. Proxy.from_dict / ProxyGroup.from_dict(_single) are modelled in Model/ProxyDict.v
+   (normalisation of the accepted dict forms to a configuration, with the exceptions the cascade raises).
+   Writing a configuration in canonical dict form ({"graphs": [{"pattern": .., "anchor": ..}, ..]} for every
+   group, the core as a list) and normalising it is the identity, for every configuration whose groups are
+   stored under their own names and have graphs and whose core graphs carry the default anchor; hence the
+   theorems above apply to proxies built from dicts. *)
+Theorem C14_from_dict_canonical : forall cfg, dict_representable cfg ->
+  proxy_from_dict mgraph (fun g => g) (JKList (map pg_graph (cfg_core cfg)))
+                  (canon_groups mgraph (dict_groups_of (cfg_groups cfg))) (Some (cfg_aam cfg)) = JOk cfg.
+Proof. exact from_dict_identity. Qed.
+
+Theorem C14_from_dict_count : forall cfg,
+  dict_representable cfg -> cfg_ok cfg -> acyclic (cfg_groups cfg) ->
+  exists c results,
+    proxy_from_dict mgraph (fun g => g) (JKList (map pg_graph (cfg_core cfg)))
+                    (canon_groups mgraph (dict_groups_of (cfg_groups cfg))) (Some (cfg_aam cfg)) = JOk c
+    /\ proxy_all c = (results, GDone) /\ List.length results = count_cfg c /\ Forall (result_ok c) results.
+Proof. exact from_dict_count. Qed.
+
+(* build_group_tree (Model/ProxyTree.v; documentation vs code, not one of the properties). Its docstring
+   says "The number of leave nodes in this tree is the number of possible samples". What the tree has:
+   tnodes nodes and tleaves leaves, where a group whose graphs carry no labels is ONE leaf however many
+   graphs it has, and otherwise the leaves of the referenced groups ADD UP over all graphs, labelled
+   nodes and labels (the number of samples multiplies over the labelled nodes of a graph). *)
+Theorem C14_group_tree_counts : forall core_name cfg es,
+  group_tree core_name cfg = TOk es ->
+  let gl := map snd (cfg_groups cfg) in
+  let core := mkGrp core_name (cfg_core cfg) in
+  List.length es = tnodes (tree_fuel gl) gl core /\ tree_leaves es = tleaves (tree_fuel gl) gl core.
+Proof. exact group_tree_counts. Qed.
+
+(* the claim is false: Proxy("C{g}", g = ["C","O","N"]) has 3 samples and a tree with 1 leaf;
+   Proxy("{g}{g}", g = ["C","O"]) has 2 * 2 = 4 samples and a tree with 1 + 1 = 2 leaves *)
+Theorem C14_group_tree_claim_refuted :
+  (cfg_hypb tree_cfg1 = true
+   /\ group_tree "core" tree_cfg1 = TOk [("core_#0", ["g_#1"]); ("g_#1", ["core_#0"])]
+   /\ tree_leaves [("core_#0", ["g_#1"]); ("g_#1", ["core_#0"])] = 1%nat
+   /\ count_cfg tree_cfg1 = 3%nat /\ List.length (fst (proxy_all tree_cfg1)) = 3%nat)
+  /\ (cfg_hypb tree_cfg2 = true
+      /\ group_tree "core" tree_cfg2
+         = TOk [("core_#0", ["g_#1"; "g_#2"]); ("g_#1", ["core_#0"]); ("g_#2", ["core_#0"])]
+      /\ tree_leaves [("core_#0", ["g_#1"; "g_#2"]); ("g_#1", ["core_#0"]); ("g_#2", ["core_#0"])] = 2%nat
+      /\ count_cfg tree_cfg2 = 4%nat /\ List.length (fst (proxy_all tree_cfg2)) = 4%nat).
+Proof. exact group_tree_claim_refuted. Qed.
+
 Print Assumptions C14_generator_stops.
 Print Assumptions C14_count.
 Print Assumptions C14_exhaustive.
@@ -179,3 +225,7 @@ Print Assumptions C14_DA_signatures.
 Print Assumptions C14_DA_no_parallel.
 Print Assumptions C14_doc_example.
 Print Assumptions C14_DA_patterns_parsed.
+Print Assumptions C14_from_dict_canonical.
+Print Assumptions C14_from_dict_count.
+Print Assumptions C14_group_tree_counts.
+Print Assumptions C14_group_tree_claim_refuted.
